@@ -63,6 +63,7 @@ type target struct {
 	opaque   map[string]string // source text -> Coq term
 	only     map[string]bool   // if set: assignments to other receiver fields are ignored
 	from     func(stmts []ast.Stmt) []ast.Stmt
+	inlineVars bool // package-level variables that are not binders and are never assigned are read as their initialisers
 	cond     func(fd *ast.FuncDecl) ast.Expr // translate one condition instead of a body
 	comment  string
 	fallback string
@@ -749,6 +750,15 @@ func (x *tr) expr(e ast.Expr) string {
 		}
 		if obj := x.p.TypesInfo.Uses[z]; obj != nil {
 			if v, ok := obj.(*types.Var); ok && v.Parent() == x.p.Types.Scope() {
+				if x.t.strict && x.t.inlineVars && x.bound["g_"+z.Name] == 0 {
+					// a package-level variable the target does not take as an input: if it has an initialiser and nothing
+					// in the package ever assigns it (or takes its address, or writes one of its elements), it stands for
+					// that initialiser
+					if init := varInit(x.p, z.Name); init != nil && !assignedInPackage(x.p, v) {
+						x.notes = append(x.notes, "package variable never assigned, read as its initialiser: "+z.Name)
+						return x.expr(init)
+					}
+				}
 				return x.use("g_" + z.Name) // package-level variable
 			}
 			if x.t.strict {
@@ -968,6 +978,10 @@ func (x *tr) expr(e ast.Expr) string {
 			case z.Low != nil && z.High != nil:
 				return x.partial("sl_range " + b + " " + paren(x.expr(z.Low)) + " " + paren(x.expr(z.High)))
 			}
+		}
+		// l[a:] on a list (a slice whose capacity does not matter): panics outside 0..len(l)
+		if x.t.strict && z.Low != nil && z.High == nil && !z.Slice3 && strings.HasPrefix(x.kindOf(z.X), "list ") && x.kindOf(z.Low) == "Z" {
+			return x.partial("list_from " + paren(x.expr(z.X)) + " " + paren(x.expr(z.Low)))
 		}
 		// t[:n] / t[n:] on a string: panics outside 0..len(t)
 		if x.t.strict && z.Low == nil && z.High != nil && !z.Slice3 && x.kindOf(z.X) == "bytes" && x.kindOf(z.High) == "Z" {
@@ -1904,7 +1918,9 @@ func (x *tr) seq(stmts []ast.Stmt, k func() string) string {
 				}
 				if cs, ok := x.t.calls[key]; ok {
 					if cs.tail != "" {
-						x.checkArgs(c)
+						if !strings.Contains(cs.tail, "%") {
+							x.checkArgs(c)
+						}
 						if len(x.loops) > 0 {
 							x.bad(z, "tail call inside a loop")
 						}
@@ -1913,14 +1929,31 @@ func (x *tr) seq(stmts []ast.Stmt, k func() string) string {
 						}
 						head := cs.tail
 						if strings.Contains(head, "%") {
-							// the constructor takes arguments of the call (os.Exit(code)): they must be free of partial operations
+							// the constructor takes the arguments of the call (os.Exit(code), s.log1(lvl, msg, args...)): operations
+							// among them that can panic are hoisted in front; a variadic call without variadic arguments passes nil
+							if c.Ellipsis != token.NoPos && !cs.spread {
+								x.bad(c, "call with a spread argument")
+							}
 							mark := len(x.pending)
 							var args []string
 							for _, a := range c.Args {
-								args = append(args, x.expr(a))
+								args = append(args, paren(x.expr(a)))
 							}
-							x.noPending(mark, c)
-							head = x.fillWith(head, c, args)
+							if sig, ok := x.p.TypesInfo.TypeOf(c.Fun).(*types.Signature); ok && sig.Variadic() {
+								if c.Ellipsis == token.NoPos && len(c.Args) > sig.Params().Len()-1 {
+									x.bad(c, "variadic call with listed variadic arguments")
+								}
+								if len(c.Args) == sig.Params().Len()-1 {
+									args = append(args, "[]")
+								}
+							}
+							cc := *c
+							for len(cc.Args) < len(args) {
+								cc.Args = append(append([]ast.Expr{}, cc.Args...), c.Args[0]) // (positions only: the texts come from args)
+							}
+							return x.hoistStmt(mark, func() string {
+								return "(" + x.fillWith(head, &cc, args) + " " + strings.Join(x.t.effects, " ") + ")"
+							})
 						}
 						return "(" + head + " " + strings.Join(x.t.effects, " ") + ")"
 					}
@@ -3207,4 +3240,65 @@ func reindent(body string) string {
 		}
 	}
 	return strings.Join(out, "\n")
+}
+
+// assignedInPackage: is the package-level variable v ever written after its declaration (assigned, incremented,
+// an element or field of it assigned, its address taken, ranged into)?
+func assignedInPackage(p *packages.Package, v *types.Var) bool {
+	root := func(e ast.Expr) *ast.Ident {
+		for {
+			switch z := e.(type) {
+			case *ast.Ident:
+				return z
+			case *ast.IndexExpr:
+				e = z.X
+			case *ast.SelectorExpr:
+				e = z.X
+			case *ast.StarExpr:
+				e = z.X
+			case *ast.ParenExpr:
+				e = z.X
+			case *ast.SliceExpr:
+				e = z.X
+			default:
+				return nil
+			}
+		}
+	}
+	is := func(e ast.Expr) bool {
+		id := root(e)
+		return id != nil && p.TypesInfo.ObjectOf(id) == v
+	}
+	found := false
+	for _, f := range p.Syntax {
+		ast.Inspect(f, func(n ast.Node) bool {
+			switch z := n.(type) {
+			case *ast.AssignStmt:
+				for _, l := range z.Lhs {
+					if is(l) {
+						found = true
+					}
+				}
+			case *ast.IncDecStmt:
+				if is(z.X) {
+					found = true
+				}
+			case *ast.UnaryExpr:
+				if z.Op == token.AND && is(z.X) {
+					found = true
+				}
+			case *ast.RangeStmt:
+				if (z.Key != nil && is(z.Key)) || (z.Value != nil && is(z.Value)) {
+					found = true
+				}
+			case *ast.CallExpr:
+				// copy(v, ..) / append(v[:0], ..) write through the slice
+				if id, ok := z.Fun.(*ast.Ident); ok && (id.Name == "copy" || id.Name == "append") && len(z.Args) > 0 && is(z.Args[0]) {
+					found = true
+				}
+			}
+			return !found
+		})
+	}
+	return found
 }
